@@ -523,7 +523,7 @@ fn generate_inner(prop: &str, seed: u64) -> Scenario {
         "C07" => {
             let srcs = with_collections(r);
             let mut scn = base(seed, r, 300, 3, &srcs);
-            scn.term = Term::CollectX;
+            scn.term = if r.chance(1, 6) { Term::CollectXUnit } else { Term::CollectX };
             scn
         }
         "C05" => {
